@@ -1,3 +1,6 @@
+CONSTANTS
+  Weak_BitArrayUnchecked = FALSE
+  Weak_ProposalTotalUnbounded = FALSE
 INIT AlphaInit
 NEXT AlphaNext
 INVARIANTS SpecOnlyDrops WellFormedCase
